@@ -16,6 +16,7 @@
 package meta
 
 import (
+	"bytes"
 	"regexp/syntax"
 )
 
@@ -41,6 +42,10 @@ type AnchoredLiteralInfo struct {
 
 	// WildcardMin is 0 for .* or 1 for .+
 	WildcardMin int
+
+	// WildcardNoNL is true when the wildcard is . without the s flag: the bytes
+	// it covers must not contain a newline.
+	WildcardNoNL bool
 
 	// MinLength is the minimum input length for a possible match.
 	// Calculated as: len(Prefix) + WildcardMin + CharClassMin + len(Suffix)
@@ -102,6 +107,7 @@ func DetectAnchoredLiteral(re *syntax.Regexp) *AnchoredLiteralInfo {
 	var prefix []byte
 	var wildcardIdx = -1
 	var wildcardMin int
+	var wildcardNoNL bool
 	var charClassTable *[256]bool
 	var charClassMin int
 
@@ -117,6 +123,7 @@ func DetectAnchoredLiteral(re *syntax.Regexp) *AnchoredLiteralInfo {
 			}
 			wildcardIdx = i
 			wildcardMin = getWildcardMin(sub)
+			wildcardNoNL = sub.Sub[0].Op == syntax.OpAnyCharNotNL
 		} else if wildcardIdx == -1 {
 			// Before wildcard - must be literal (prefix)
 			lit := extractLiteral(sub)
@@ -162,18 +169,20 @@ func DetectAnchoredLiteral(re *syntax.Regexp) *AnchoredLiteralInfo {
 		CharClassTable: charClassTable,
 		CharClassMin:   charClassMin,
 		WildcardMin:    wildcardMin,
+		WildcardNoNL:   wildcardNoNL,
 		MinLength:      minLen,
 	}
 }
 
-// isStartAnchor returns true if re is a start anchor (^ or \A).
+// isStartAnchor returns true if re is a text start anchor (^ without the m flag, or \A).
+// (?m)^ also matches after every newline: the whole-input check below does not apply.
 func isStartAnchor(re *syntax.Regexp) bool {
-	return re.Op == syntax.OpBeginText || re.Op == syntax.OpBeginLine
+	return re.Op == syntax.OpBeginText
 }
 
-// isEndAnchor returns true if re is an end anchor ($ or \z).
+// isEndAnchor returns true if re is a text end anchor ($ without the m flag, or \z).
 func isEndAnchor(re *syntax.Regexp) bool {
-	return re.Op == syntax.OpEndText || re.Op == syntax.OpEndLine
+	return re.Op == syntax.OpEndText
 }
 
 // isGreedyWildcard returns true if re is .* or .+ (greedy).
@@ -324,7 +333,10 @@ func MatchAnchoredLiteral(input []byte, info *AnchoredLiteralInfo) bool {
 	if info.CharClassTable == nil {
 		// Still need to verify wildcard minimum
 		middleLen := suffixStart - len(info.Prefix)
-		return middleLen >= info.WildcardMin
+		if middleLen < info.WildcardMin {
+			return false
+		}
+		return !info.WildcardNoNL || bytes.IndexByte(input[len(info.Prefix):suffixStart], '\n') < 0
 	}
 
 	// O(k) charclass bridge check
@@ -349,5 +361,9 @@ func MatchAnchoredLiteral(input []byte, info *AnchoredLiteralInfo) bool {
 		}
 	}
 
-	return found >= info.CharClassMin
+	if found < info.CharClassMin {
+		return false
+	}
+	// The wildcard covers at least the bytes before the charclass run.
+	return !info.WildcardNoNL || bytes.IndexByte(input[len(info.Prefix):charClassEnd-found], '\n') < 0
 }
